@@ -77,6 +77,67 @@ func ruleR25(p *Prog) []Ob {
 		}
 		obs = append(obs, ob)
 	}
+	// (a2) the copy is skipped only where source and destination were compared equal in size
+	{
+		ob := Ob{Rule: "R25", Inst: "a2:skip-needs-equal-size:" + funcLabel(cp), Props: props, Pos: p.posStr(cp.Pos()), Func: funcLabel(cp), Nontrivial: true}
+		var copies []*ssa.Call
+		for _, b := range cp.Blocks {
+			for _, ins := range b.Instrs {
+				if c, ok := ins.(*ssa.Call); ok {
+					switch calleeName(c.Common()) {
+					case "io.Copy", "io.CopyN", "io.CopyBuffer":
+						copies = append(copies, c)
+					}
+				}
+			}
+		}
+		isSize := func(v ssa.Value) bool {
+			c, ok := v.(*ssa.Call)
+			return ok && c.Common().IsInvoke() && c.Common().Method.Name() == "Size"
+		}
+		var bad []string
+		skips := 0
+		for _, rt := range returnsOf(cp) {
+			if ea.isFailureReturn(cp, rt) {
+				continue
+			}
+			copied := false
+			for _, c := range copies {
+				if instrDominates(c, rt) {
+					copied = true
+				}
+			}
+			if copied {
+				continue
+			}
+			skips++
+			okEq := false
+			for _, hb := range cp.Blocks {
+				iff, isIf := terminator(hb).(*ssa.If)
+				if !isIf {
+					continue
+				}
+				if x, y, op, ok := relCond(iff.Cond); ok && isSize(x) && isSize(y) && x != y {
+					if (op == token.EQL && edgeDominates(hb, 0, rt.Block())) || (op == token.NEQ && edgeDominates(hb, 1, rt.Block())) {
+						okEq = true
+						ob.Guards = append(ob.Guards, p.at(iff))
+					}
+				}
+			}
+			if !okEq {
+				bad = append(bad, p.at(rt)+": the copy is skipped without the two sizes having been compared equal")
+			}
+		}
+		switch {
+		case len(copies) == 0:
+			ob.Status, ob.Msg = Undecided, "no io.Copy in the copy function"
+		case len(bad) > 0:
+			ob.Status, ob.Msg, ob.Path = Violated, "an existing destination can be taken for up to date although it is shorter or longer than the source (a head segment appended to since the previous backup stays stale)", bad
+		default:
+			ob.Status, ob.Msg = Discharged, fmt.Sprintf("%d skip return(s), each only where source and destination have the same size", skips)
+		}
+		obs = append(obs, ob)
+	}
 	// (b) every level above hands on: functions between Log.Backup / klevdb.Backup and the copy function
 	reachesCopy := func(g *ssa.Function) bool { return p.reaches(g, func(h *ssa.Function) bool { return h == cp }) }
 	callReachesCopy := func(c ssa.CallInstruction) bool {
